@@ -243,14 +243,21 @@ mod roundtrip {
         }
     }
 
-    fn judge_state<S: State>(seed: u64, i: u64, l: &mut Local) {
+    fn judge_state<S: State + std::ops::Add<Output = S>>(seed: u64, i: u64, l: &mut Local) {
         let mut r = Rng::from(&[seed, hash_str(S::NAME), i]);
         let n = match i % 5 {
             0 => r.below(3) as usize,
             1 => r.range(2, 30) as usize,
             _ => r.range(30, 3000) as usize,
         };
-        let original = S::build(&mut r, n);
+        let mut original = S::build(&mut r, n);
+        if i % 17 == 11 && n >= 1 {
+            // the state of a long campaign: merged with itself 33 times, its counts exceed 2^32
+            for _ in 0..33 {
+                original = original.clone() + original;
+            }
+            l.count("states with counts beyond 2^32 round-tripped");
+        }
         let dbg = format!("{:?}", original);
         let nz = crate::nonzero_compensation(&dbg);
         l.count_s(format!("roundtrip:{}", S::NAME));
@@ -310,7 +317,7 @@ mod roundtrip {
                 }
             }};
         }
-        let lv = *r.pick(&[0.001, 0.5, 0.95, 0.999, 0.1 + 0.2]);
+        let lv = if i % 2 == 0 { *r.pick(&[0.001, 0.5, 0.95, 0.999, 0.9999, 0.1 + 0.2]) } else { r.uniform(0.001, 0.9999) };
         rt!(Confidence::TwoSided(lv), "Confidence");
         rt!(Confidence::UpperOneSided(lv), "Confidence");
         rt!(Confidence::LowerOneSided(lv), "Confidence");
